@@ -475,8 +475,34 @@ class GGenSW:
             alts.append(("seq", items) if len(items) > 1 else items[0])
         return ("alt", alts)
 
+    def chain(self):
+        """rules whose first-character sets depend on each other through a long chain: R(i) begins with
+        R(i-1) and reaches R(i+1) after a consumed character, so the analysis needs as many rounds as the
+        chain is long; the last rule's choice overlaps the first characters inherited from the start of the chain"""
+        r = self.rng
+        k = r.randint(3, 5)
+        L = self.LETTERS
+        names = ["R%d" % i for i in range(k + 1)]
+        c0 = r.sample(L, 2)
+        rules = [("R0", ("alt", [("seq", [("chr", c0[0]), ("q", ("name", "R1"))]), ("chr", c0[1])]))]
+        for i in range(1, k):
+            x, y, z = r.choice(L), r.choice(L), r.choice(L)
+            alts = [("seq", [("name", names[i - 1]), ("chr", x)]), ("seq", [("chr", y), ("q", ("name", names[i + 1]))])]
+            if r.random() < 0.5:
+                alts.append(("chr", z))
+            rules.append((names[i], ("alt", alts)))
+        last = [("seq", [("name", names[k - 1]), ("chr", r.choice(L))]), ("seq", [("chr", r.choice(c0)), ("chr", 0x71)]), ("chr", r.choice(L))]
+        if r.random() < 0.5:
+            last.append(("seq", [("chr", r.choice(L)), ("chr", 0x72)]))
+        rules.append((names[k], ("alt", last)))
+        top = ("seq", [("star", ("seq", [("name", "R0"), ("chr", 0x76)]))] +
+               [("q", ("seq", [("chr", 0x77), ("name", n)])) for n in names[1:]] + [("not", ("dot",))])
+        return [("S", top)] + rules
+
     def grammar(self):
         r = self.rng
+        if r.random() < 0.2:
+            return self.chain()
         rules = []
         for i, nm in enumerate(self.names):
             self.cur = nm
@@ -767,6 +793,32 @@ def conv_expr(n, idx, raw=False):
         parts.append("(default %s)" % cases[-1][1])
         return "(sw %s)" % " ".join(parts)
     raise ConvError("node type %d not convertible" % t)
+
+
+def raw_to_model(nodes):
+    """Raw (pre-Compile) tree dump -> "(rg (def i expr) ...)" for Model/Link.v: rule i is the i-th definition,
+    a name without definition gets an id beyond the rules, in order of first occurrence"""
+    rules = [n for n in nodes if n.t == T_RULE]
+    idx = {}
+    for i, r in enumerate(rules):
+        idx.setdefault(r.s, i)
+    if len(idx) != len(rules):
+        raise ConvError("duplicate definitions")
+
+    def scan(n):
+        if n.t == T_NAME and n.s not in idx:
+            idx[n.s] = len(idx)
+        for k in n.kids:
+            scan(k)
+    for r in rules:
+        for k in r.kids:
+            scan(k)
+    defs = []
+    for i, r in enumerate(rules):
+        if not r.kids:
+            raise ConvError("rule without body")
+        defs.append("(def %d %s)" % (i, conv_expr(r.kids[0], idx, raw=True)))
+    return "(rg %s)" % " ".join(defs)
 
 
 def linked_to_model(nodes):
